@@ -436,6 +436,149 @@ def run_schedule(item):
                 leftovers=leftovers, steps=s.steps, timeouts_fired=s.timeouts_fired)
 
 
+class Diverged(Exception):
+    pass
+
+
+_ACTOR_OF = {'PPut': 'producer', 'PMarker': 'producer', 'FGet': 'fetcher', 'FFwd': 'fetcher', 'FEnd': 'fetcher',
+             'CGet': 'collector', 'CJoinProd': 'collector', 'CJoinW': 'collector', 'CJoinF': 'collector'}
+_OP_OF = {'PPut': 'put', 'PMarker': 'put', 'WGet': 'get', 'WPut': 'put', 'WExit': 'put', 'FGet': 'get', 'FFwd': 'put', 'FEnd': 'put',
+          'CGet': 'get', 'CJoinProd': 'join', 'CJoinW': 'join', 'CJoinF': 'join'}
+_INTERNAL = ('CPeekYield', 'CPeekEnd', 'CStart')
+
+
+def run_script(item):
+    """spec -> code: item = dict(R, N, sel, fail_ids, script=[{a, w, st}...]) - one complete behaviour of Parallelize.tla
+    (spec/ParallelizeSim.tla).  The scheduler grants exactly the scripted operation at every step (starting the actors
+    belongs to CStart and is granted eagerly) and compares the projected state of the real queues with the spec state
+    after every step.  If the implementation cannot follow (scripted operation not enabled, state differs, steps left
+    over) the divergence is recorded and the run is finished under a uniform random schedule, so that the outcome can
+    still be judged."""
+    import random
+    from .common import setup_repo
+    setup_repo()
+    pm = sys.modules['dataflows.processors.parallelize']
+    R, N, sel = item['R'], item['N'], set(item['sel'])
+    script = item['script']
+    rnd = random.Random(item.get('seed', 0))
+    pos = [0]
+    div = {}
+    delivered, applied = [], []
+    calls = {}
+    checked = [0]
+
+    def ids(pickled):
+        return [Sched.vid(pickle.loads(x)) for x in pickled]
+
+    def project(s):
+        qs = s.queues
+        q_in = qs[0] if len(qs) > 0 else None
+        q_int = qs[1] if len(qs) > 1 else None
+        q_out = qs[2] if len(qs) > 2 else None
+        return dict(qin=ids(q_in.pipe) if q_in else [], pbuf=ids(q_in.buf.get('producer', [])) if q_in else [],
+                    qout=ids(q_out.pipe) if q_out else [],
+                    obuf=[ids(q_out.buf.get('w%d' % w, [])) if q_out else [] for w in range(1, N + 1)],
+                    qint=[Sched.vid(x) for x in q_int.items] if q_int else [],
+                    delivered=list(delivered), applied=[calls.get(r, 0) for r in range(1, R + 1)])
+
+    def expected(st):
+        return dict(qin=list(st['qin']), pbuf=list(st['pbuf']), qout=list(st['qout']), obuf=[list(x) for x in st['obuf']],
+                    qint=list(st['qint']), delivered=list(st['delivered']), applied=list(st['applied'] or []))
+
+    def diverge(why, **kw):
+        if not div:
+            div.update(dict(why=why, at=pos[0], **kw))
+
+    def chooser(enabled, s):
+        if div:
+            return rnd.choice(enabled)
+        # starting the actors is part of CStart; an actor's first step only brings it to its first queue operation
+        for e in enabled:
+            if e[0] == 'act' and s.actors[e[1]].pending[0] in ('begin', 'start'):
+                return e
+        while pos[0] < len(script) and script[pos[0]]['a'] in _INTERNAL:
+            pos[0] += 1
+        if pos[0] > 0:
+            exp, got = expected(script[pos[0] - 1]['st']), project(s)
+            checked[0] += 1
+            if exp != got:
+                diverge('the state after step %d (%s) differs from the specification' % (pos[0], script[pos[0] - 1]['a']), expected=exp, actual=got)
+                return rnd.choice(enabled)
+        if pos[0] >= len(script):
+            diverge('the behaviour of the specification has ended but the implementation still has operations to perform',
+                    enabled=[str(s.describe(s.actors[e[1]].pending)) if e[0] != 'feed' else 'feed' for e in enabled])
+            return rnd.choice(enabled)
+        ent = script[pos[0]]
+        a, w = ent['a'], ent['w']
+        if a == 'FeedIn':
+            want = [e for e in enabled if e[0] == 'feed' and s.role_of_queue(e[1]) == 'q_in' and e[2] == 'producer']
+        elif a == 'FeedOut':
+            want = [e for e in enabled if e[0] == 'feed' and s.role_of_queue(e[1]) == 'q_out' and e[2] == 'w%d' % w]
+        else:
+            name = _ACTOR_OF.get(a) or 'w%d' % w
+            want = [e for e in enabled if e[0] == 'act' and e[1] == name and s.actors[name].pending[0] == _OP_OF[a]]
+        if not want:
+            diverge('the operation the specification takes next (%s%s) is not enabled in the implementation' % (a, ' w=%d' % w if w else ''),
+                    enabled=[(e[1] + ':' + str(s.describe(s.actors[e[1]].pending))) if e[0] != 'feed' else 'feed:%s' % e[2] for e in enabled])
+            return rnd.choice(enabled)
+        pos[0] += 1
+        return want[0]
+    s = Sched(chooser)
+    saved = (pm.mp, pm.threading, pm.queue)
+    pm.mp, pm.threading, pm.queue = s.mp_shim(), s.threading_shim(), s.queue_shim()
+    state = {'terminated': False, 'error': None}
+    rows = [dict(id=i + 1, n=0) for i in range(R)]
+    fail_ids = set(item.get('fail_ids') or [])
+
+    def predicate(row):
+        return row['id'] in sel
+
+    def row_func_(row):
+        if row['id'] in fail_ids:
+            raise ValueError('row_func fails on row %d' % row['id'])
+        calls[row['id']] = calls.get(row['id'], 0) + 1
+        row['n'] += 1
+
+    def consumer():
+        gen = pm.fork(_Res(iter(rows)), row_func_, N, predicate)
+        for row in gen:
+            if not s.started:
+                s.log.append(['CPeekYield', row['id']])
+            delivered.append(row['id'])
+            applied.append(row['n'])
+        if not s.started:
+            s.log.append(['CPeekEnd'])
+        state['terminated'] = True
+    import contextlib
+    import io
+    try:
+        with contextlib.redirect_stdout(io.StringIO()):
+            main = s.run(consumer)
+        if main.error is not None:
+            state['error'] = '%s: %s' % (type(main.error).__name__, main.error)
+    finally:
+        pm.mp, pm.threading, pm.queue = saved
+    leftovers = {n: a.state for n, a in s.actors.items() if a.state != 'done'}
+    if not div:
+        while pos[0] < len(script) and script[pos[0]]['a'] in _INTERNAL:
+            pos[0] += 1
+        if pos[0] < len(script):
+            diverge('the implementation finished although the specification still has steps (%s ...)' % script[pos[0]]['a'])
+        else:
+            want = [[e['a']] + ([e['w']] if e['a'] in ('WGet', 'WPut', 'WExit', 'FeedOut', 'CJoinW') else []) for e in script]
+            got = [[e[0]] + ([e[1]] if e[0] in ('WGet', 'WPut', 'WExit', 'FeedOut', 'CJoinW') else []) for e in s.log]
+            if want != got:
+                k = next((i for i, (x, y) in enumerate(zip(want, got)) if x != y), min(len(want), len(got)))
+                diverge('the recorded operations differ from the scripted ones at %d' % k, expected=want[k:k + 3], actual=got[k:k + 3])
+            elif script and project(s) != expected(script[-1]['st']):
+                diverge('the final state differs from the specification', expected=expected(script[-1]['st']), actual=project(s))
+    return dict(r=R, n=N, sel=sorted(sel), ev=s.log, feeds=True,
+                fin=dict(delivered=delivered, applied=applied,
+                         terminated=bool(state['terminated'] and not leftovers and s.deadlock is None and state['error'] is None)),
+                deadlock=s.deadlock, error=state['error'], leftovers=leftovers, steps=s.steps, followed=not div, divergence=div or None,
+                states_compared=checked[0], script_len=len(script))
+
+
 class _Res:
     """stands for the ResourceWrapper handed to fork: iter() returns the one underlying iterator"""
 
